@@ -48,6 +48,24 @@ pub open spec fn keep<A>(xs: Seq<A>, bs: Seq<bool>) -> Seq<A>
     }
 }
 
+// every kept element is one of the originals whose flag is set
+pub proof fn lemma_keep_elems<A>(xs: Seq<A>, bs: Seq<bool>, j: int)
+    requires bs.len() == xs.len(), 0 <= j < keep(xs, bs).len(),
+    ensures exists|i: int| 0 <= i < xs.len() && bs[i] && #[trigger] xs[i] == keep(xs, bs)[j],
+    decreases xs.len(),
+{
+    if xs.len() > 0 {
+        let kx = keep(xs.drop_last(), bs.drop_last());
+        if bs.last() && j == kx.len() {
+            assert(xs[xs.len() - 1] == keep(xs, bs)[j]);
+        } else {
+            lemma_keep_elems(xs.drop_last(), bs.drop_last(), j);
+            let i = choose|i: int| 0 <= i < xs.len() - 1 && bs.drop_last()[i] && #[trigger] xs.drop_last()[i] == kx[j];
+            assert(xs[i] == keep(xs, bs)[j]);
+        }
+    }
+}
+
 pub trait ShimFilterMap: Iterator + Sized {
     fn shim_filter_map<B, F: FnMut(Self::Item) -> Option<B>>(self, f: F) -> (r: std::vec::IntoIter<B>)
         requires
